@@ -12,7 +12,8 @@ INVALID = [4, 9]
 
 
 def job_history(rng, nops, style):
-    """job API only.  style: 'mixed' | 'full' (drive the queue to 255 and over) | 'drain'."""
+    """job API only.  style: 'mixed' | 'full' (drive the queue to 255 and over) | 'drain' | 'edge' (each kind of
+    submit, incl. a rejected job, taking the last free slots)."""
     ops = []
     jid = [1]
 
@@ -57,6 +58,36 @@ def job_history(rng, nops, style):
                 ops.append("C")
             else:
                 ops.append("Q")
+    if style == "edge":
+        # the queue-full condition met by each kind of submit: a parked head blocks every return, exactly k jobs are
+        # queued behind it, then the job that takes slot 255 / 256 is rejected (checked call), valid-immediate,
+        # unchecked or parked; followed by the calls whose result depends on the bookkeeping, then a full drain.
+        # Every combination is an episode of the same history (the ring phase differs from episode to episode).
+        combos = [(k, w) for k in (253, 254) for w in range(4)]
+        for i in range(len(combos) - 1, 0, -1):
+            j = rng.below(i + 1)
+            combos[i], combos[j] = combos[j], combos[i]
+        for (k, what) in combos:
+            sub(check=1, kind=rng.choice([1, 2, 6]))
+            for i in range(k):
+                sub(check=rng.choice([0, 1]), kind=rng.choice(IMMEDIATE))
+            for rep in range(2):
+                if what == 0:
+                    sub(check=1, kind=rng.choice(INVALID))
+                elif what == 1:
+                    sub(check=1, kind=rng.choice(IMMEDIATE))
+                elif what == 2:
+                    sub(check=0, kind=rng.choice(IMMEDIATE))
+                else:
+                    sub(check=1, kind=rng.choice(PARKED))
+                ops.append(rng.choice(["Q", "N", "C"]))
+            ops.append("Q")
+            for _ in range(rng.below(4)):
+                ops.append(rng.choice(["N", "C", "Q"]))
+                sub()
+            for _ in range(262):
+                ops.append("F")
+            ops.append("Q")
     while len(ops) < nops:
         r = rng.below(100)
         if style == "drain" and rng.chance(1, 3):
